@@ -643,8 +643,18 @@ func TestC07_FarIndexes(t *testing.T) {
 // weighted add, or two whose sum is exact), so that the ninth byte of the count carries arbitrary bits, the top one
 // included; the plain decoder must skip exactly that block and decode the rest into every store kind.
 func TestC07_PlainDecodesExactLongCount(t *testing.T) {
-	rapid.Check(t, func(t *rapid.T) {
-		cl := newCase("C07")
+	rapid.Check(t, func(t *rapid.T) { plainDecodesExactLongCount(t, "C07") })
+}
+
+// TestC06_ExactProducerLongCount: the same cases counted under C06 ("encoding any sketch" includes the exact-summary
+// variant, and the plain decoder is one way of decoding its bytes): same bins, same zero weight, same count.
+func TestC06_ExactProducerLongCount(t *testing.T) {
+	rapid.Check(t, func(t *rapid.T) { plainDecodesExactLongCount(t, "C06") })
+}
+
+func plainDecodesExactLongCount(t *rapid.T, prop string) {
+	{
+		cl := newCase(prop)
 		cl.label("direction:C")
 		spec, m := buildMapping(t, 1e-3, 0.3)
 		var w float64
@@ -667,18 +677,18 @@ func TestC07_PlainDecodesExactLongCount(t *testing.T) {
 			v = 0
 		}
 		if err := src.AddWithCount(v, w); err != nil {
-			t.Fatalf("C07/C long count: AddWithCount(%v,%v): %v", v, w, err)
+			t.Fatalf(prop+"/C long count: AddWithCount(%v,%v): %v", v, w, err)
 		}
-		cl.logf("C07/C long count %s producer=%s value %v weight %x", spec, prodKind, v, math.Float64bits(w))
+		cl.logf(prop+"/C long count %s producer=%s value %v weight %x", spec, prodKind, v, math.Float64bits(w))
 		omit := rapid.Bool().Draw(t, "omit")
 		var b []byte
 		src.Encode(&b, omit)
 		content, _, err := refdec.Parse(b)
 		if err != nil {
-			t.Fatalf("C07/C long count: the encoding does not parse: %v", err)
+			t.Fatalf(prop+"/C long count: the encoding does not parse: %v", err)
 		}
 		if !content.HasCount || !obs.FEq(content.Count, refdec.VarfloatTransform(w)) {
-			t.Fatalf("C07/C long count: count block %v (present=%v), total weight %v", content.Count, content.HasCount, w)
+			t.Fatalf(prop+"/C long count: count block %v (present=%v), total weight %v", content.Count, content.HasCount, w)
 		}
 		cl.labelIf(refdec.VarfloatLen(w) == 9, "count-block:9-bytes")
 		cl.labelIf(refdec.VarfloatLen(w) == 9 && refdec.AppendVarfloat(nil, w)[8] >= 0x80, "count-block:9th-byte-top-bit")
@@ -690,22 +700,22 @@ func TestC07_PlainDecodesExactLongCount(t *testing.T) {
 			}
 			dec, err := ddsketch.DecodeDDSketch(b, tk.Provider(), sup)
 			if err != nil {
-				t.Fatalf("C07/C long count: DecodeDDSketch(encoding of an exact-summary sketch of total weight %v) into %s failed: %v (stream % x)", w, tk, err, b)
+				t.Fatalf(prop+"/C long count: DecodeDDSketch(encoding of an exact-summary sketch of total weight %v) into %s failed: %v (stream % x)", w, tk, err, b)
 			}
 			got := map[float64]float64{}
 			dec.ForEach(func(x, c float64) bool { got[x] += c; return false })
 			if len(got) != 1 || !obs.FEq(dec.GetCount(), want) {
-				t.Fatalf("C07/C long count -> %s: decoded bins %v count %v, want one bin of weight %v", tk, got, dec.GetCount(), want)
+				t.Fatalf(prop+"/C long count -> %s: decoded bins %v count %v, want one bin of weight %v", tk, got, dec.GetCount(), want)
 			}
 			// and as a decode-merge into a non-empty plain sketch
 			r := ddsketch.NewDDSketch(m, tk.New(), tk.New())
 			_ = r.Add(gen.ClampPos(m, 7))
 			if err := r.DecodeAndMergeWith(b); err != nil {
-				t.Fatalf("C07/C long count: DecodeAndMergeWith into a non-empty %s sketch failed: %v", tk, err)
+				t.Fatalf(prop+"/C long count: DecodeAndMergeWith into a non-empty %s sketch failed: %v", tk, err)
 			}
 		}
 		cl.done(true)
-	})
+	}
 }
 
 // TestC07_PowerOfTwoIndexes: bin indexes and index deltas that are exactly 2^k or next to it (k = 6, 7, 13, 14, 20,
